@@ -25,6 +25,7 @@ META = {
 }
 META["claim"] += " " + 'Also: two or three connections of one process, each in the middle of its own fragmented message, served alternately (reassembly state is per connection).'
 META["claim"] += " " + "Round 3b: after send_close() the server's remaining messages (incl. empty ones cut into empty fragments, with pings in between) drained through recv / next / for / recv_data until its close frame; a WebSocketApp reassembly case."
+META["claim"] += " " + "Round 4: texts with a leading / inner byte-order mark and other characters Python's text machinery treats specially; ambient conditions drawn per connection."
 
 TEXTS = ["", "a", "é", "€", "\U0001f600", "ab€"[:2] + "c", "aé", "\ufeff", "\ufeffa"]
 MORE_TEXTS = TEXTS + H.TRICKY_TEXTS
